@@ -180,7 +180,7 @@ Definition exchange (self other : key) : res bytes :=
     if str_eqb (k_kty self) (s_ "OKP")
     then k_priv self && same && str_eqb (k_kty other) (s_ "OKP")
          && (str_eqb (k_crv self) (s_ "X25519") || str_eqb (k_crv self) (s_ "X448"))
-    else k_priv self && same in
+    else str_eqb (k_kty other) (s_ "EC") && k_priv self && same in
   if gate then o_ecdh O (k_id self) (k_id other) else Err (EJose InvalidExchangeKeyError).
 
 Definition need_ek (r : recip) : res bytes :=
@@ -204,7 +204,8 @@ Definition ecdh1pu_dec_auk (a : jwe_alg_row) (e : jwe_enc_row) (hs : dict) (r : 
            (tag : option bytes) : res bytes :=
   do _ <- check_enc_1pu a e;
   do _ <- assert_in hs "epk";
-  do sk <- (match r_sender r with Some k => Ok k | None => Err EAssert end);
+  do sk <- (match r_sender r with Some k => Ok k | None => Err (EJose InvalidExchangeKeyError) end);
+  do _ <- check_key_type a (r_key r);
   do epk <- o_import O (k_kty (r_key r)) (hget hs "epk");
   do zs <- exchange (r_key r) sk;
   do ze <- exchange (r_key r) epk;
